@@ -49,8 +49,8 @@ pub fn check_ins(
         .ictx
         .label_map
         .iter()
-        .map(|(k, v)| (k.clone(), v.map))
-        .chain(b.ictx.fn_map.iter().map(|(k, v)| (k.clone(), *v)))
+        .map(|(k, v)| (k.clone(), v.map as usize))
+        .chain(b.ictx.fn_map.iter().map(|(k, v)| (k.clone(), *v as usize)))
         .collect();
     let label_idx = |l: &str| lm.iter().find(|(k, _)| k == l).map(|(_, i)| *i);
     let fo = |e: &Flow, o: &ObsFlow| flow_matches(e, o, &label_idx);
